@@ -39,11 +39,11 @@ type Q struct {
 }
 
 type Case struct {
-	Domain string   `json:"domain"` // grid | free | tree
-	Total  float64  `json:"total"`
-	K      float64  `json:"k"`
-	Queues []Q      `json:"queues"`
-	Orders [][]int  `json:"orders"` // insertion orders to evaluate
+	Domain string  `json:"domain"` // grid | free | tree
+	Total  float64 `json:"total"`
+	K      float64 `json:"k"`
+	Queues []Q     `json:"queues"`
+	Orders [][]int `json:"orders"` // insertion orders to evaluate
 }
 
 var epoch = time.Date(2020, 1, 1, 0, 0, 0, 0, time.UTC)
